@@ -23,6 +23,7 @@ type Obligation struct {
 	Static  *bool // decided without solver (type facts etc.)
 	Note    string
 	Group   string // pieces of one split postcondition share a group: after two failed pieces the rest are not attempted
+	Slice   int  // 0: cone of influence ignoring hub variables, 1: plain cone of influence, 2: every assumption
 	NoSlice bool // use every assumption (second attempt: infeasible paths are refuted by facts unrelated to the goal)
 	fullAssumes []*Term
 	// results
@@ -43,13 +44,16 @@ func (lib *SpecLib) Script(o *Obligation, style string, wantModel bool) string {
 			b.WriteString("(set-option :produce-models true)\n")
 		}
 	}
-	if !o.NoSlice {
-		if o.fullAssumes == nil {
-			o.fullAssumes = o.Assumes
-		}
-		o.Assumes = coneOfInfluence(o.fullAssumes, o.Goal)
-	} else if o.fullAssumes != nil {
+	if o.fullAssumes == nil {
+		o.fullAssumes = o.Assumes
+	}
+	switch {
+	case o.NoSlice || o.Slice >= 2:
 		o.Assumes = o.fullAssumes
+	case o.Slice == 1:
+		o.Assumes = coneOfInfluence(o.fullAssumes, o.Goal, false)
+	default:
+		o.Assumes = coneOfInfluence(o.fullAssumes, o.Goal, true)
 	}
 	roots := append([]*Term{}, o.Assumes...)
 	roots = append(roots, o.Goal)
@@ -344,7 +348,10 @@ func hasAnyBound(t *Term, cache map[*Term]bool) bool {
 
 // coneOfInfluence keeps the assumptions that (transitively) share an uninterpreted constant with the goal.
 // Dropping assumptions can only make an obligation harder to prove, never wrongly provable.
-func coneOfInfluence(assumes []*Term, goal *Term) []*Term {
+//
+// With hubs set, variables that occur in more than a quarter of the assumptions (the loop counter, the big input array)
+// do not link assumptions to the goal; an assumption over hub and goal variables only is kept.
+func coneOfInfluence(assumes []*Term, goal *Term, hubs bool) []*Term {
 	if len(assumes) < 12 {
 		return assumes
 	}
@@ -377,6 +384,20 @@ func coneOfInfluence(assumes []*Term, goal *Term) []*Term {
 		av[i] = varsOf(a)
 	}
 	rel := varsOf(goal)
+	hub := map[*Term]bool{}
+	if hubs && len(assumes) >= 40 {
+		cnt := map[*Term]int{}
+		for _, m := range av {
+			for v := range m {
+				cnt[v]++
+			}
+		}
+		for v, c := range cnt {
+			if c*4 > len(assumes) {
+				hub[v] = true
+			}
+		}
+	}
 	keep := make([]bool, len(assumes))
 	for changed := true; changed; {
 		changed = false
@@ -385,17 +406,23 @@ func coneOfInfluence(assumes []*Term, goal *Term) []*Term {
 				continue
 			}
 			hit := len(av[i]) == 0
+			onlyKnown := true
 			for v := range av[i] {
-				if rel[v] {
+				if rel[v] && !hub[v] {
 					hit = true
 					break
 				}
+				if !rel[v] && !hub[v] {
+					onlyKnown = false
+				}
 			}
-			if hit {
+			if hit || (len(hub) > 0 && onlyKnown) {
 				keep[i] = true
 				changed = true
 				for v := range av[i] {
-					rel[v] = true
+					if !hub[v] {
+						rel[v] = true
+					}
 				}
 			}
 		}
